@@ -72,6 +72,33 @@ func dispatchTable(w *core.World, fn *core.FuncInfo, label func(e ast.Expr) stri
 		}
 		return out, nil
 	}
+	// keys singled out by an equality guard before the lookup (`if key == K { ... }`) are entries of their own
+	guards := map[string]ast.Node{}
+	for _, st := range fn.Decl.Body.List {
+		is, ok := st.(*ast.IfStmt)
+		if !ok || is.Else != nil {
+			continue
+		}
+		be, ok := ast.Unparen(is.Cond).(*ast.BinaryExpr)
+		if !ok || be.Op != token.EQL {
+			continue
+		}
+		if l := label(be.Y); l != "" {
+			guards[l] = is.Body
+		} else if l := label(be.X); l != "" {
+			guards[l] = is.Body
+		}
+	}
+	out, dflt := lookupTable(w, fn, label)
+	for k, v := range guards {
+		if _, has := out[k]; !has {
+			out[k] = v
+		}
+	}
+	return out, dflt
+}
+
+func lookupTable(w *core.World, fn *core.FuncInfo, label func(e ast.Expr) string) (map[string]ast.Node, ast.Node) {
 	info := fn.Pkg.TypesInfo
 	var lit *ast.CompositeLit
 	litPkg := fn.Pkg
@@ -639,6 +666,66 @@ func c08Pair(r *core.Run) {
 					for _, k := range []string{"compressorTypeKey"} {
 						if strings.Contains(o, "const:"+k) {
 							out = k
+						}
+					}
+					if out == "" {
+						// the type name travels in a struct field: the context key that field is stored under /
+						// loaded from, anywhere in the package (ctx[K] = x.F  or  x.F[, ok] = ctx[K])
+						var fld *types.Var
+						ast.Inspect(ast.Unparen(c.Fun).(*ast.SelectorExpr).X, func(m ast.Node) bool {
+							if sel, ok := m.(*ast.SelectorExpr); ok {
+								if v, ok := f.Pkg.TypesInfo.Uses[sel.Sel].(*types.Var); ok && v.IsField() && fld == nil {
+									fld = v
+								}
+							}
+							return true
+						})
+						if fld != nil {
+							keys := map[string]bool{}
+							isFld := func(info *types.Info, e ast.Expr) bool {
+								sel, ok := ast.Unparen(e).(*ast.SelectorExpr)
+								return ok && info.Uses[sel.Sel] == types.Object(fld)
+							}
+							keyOfIndex := func(info *types.Info, e ast.Expr) string {
+								ix, ok := ast.Unparen(e).(*ast.IndexExpr)
+								if !ok {
+									return ""
+								}
+								if cst := core.ConstObj(info, ix.Index); cst != nil {
+									return cst.Name()
+								}
+								return ""
+							}
+							for _, g := range w.SortedFuncs() {
+								if g.Pkg != f.Pkg || w.IsTestFile(g.Decl.Pos()) || g.Decl.Body == nil {
+									continue
+								}
+								gi := g.Pkg.TypesInfo
+								ast.Inspect(g.Decl.Body, func(m ast.Node) bool {
+									as, ok := m.(*ast.AssignStmt)
+									if !ok {
+										return true
+									}
+									if len(as.Rhs) == 1 && len(as.Lhs) >= 1 && isFld(gi, as.Lhs[0]) {
+										if k := keyOfIndex(gi, as.Rhs[0]); k != "" {
+											keys[k] = true
+										}
+									}
+									if len(as.Lhs) == len(as.Rhs) {
+										for i := range as.Lhs {
+											if k := keyOfIndex(gi, as.Lhs[i]); k != "" && isFld(gi, as.Rhs[i]) {
+												keys[k] = true
+											}
+										}
+									}
+									return true
+								})
+							}
+							if len(keys) == 1 {
+								for k := range keys {
+									out = k
+								}
+							}
 						}
 					}
 					return true
